@@ -156,6 +156,7 @@ func c17Forwarder(r *Run) {
 	fwdTopic := simrt.Pick(t, "", "custom_forwarder_topic")
 	ackBad := t.Chance(1, 2)
 	n := 1 + t.Skewed(6)
+	emptyUUID := t.Chance(1, 4)
 	capture := NewScriptedPublisher(r, "outbox")
 	fp := forwarder.NewPublisher(capture, forwarder.PublisherConfig{ForwarderTopic: fwdTopic})
 	effTopic := fwdTopic
@@ -174,6 +175,9 @@ func c17Forwarder(r *Run) {
 	for i := 0; i < n; i++ {
 		it := c17RandomItem(t, i)
 		it.uuid = fmt.Sprintf("%s#%d", it.uuid, i) // unique, still arbitrary
+		if i == 0 && emptyUUID {
+			it.uuid = "" // "UUID can be empty": an empty UUID is relayed as it is, not replaced
+		}
 		switch t.Int(7) {
 		case 0:
 			it.kind = 1
@@ -331,6 +335,7 @@ func kindsOf(items []*c17Item) []int {
 
 func c17FanIn(r *Run) {
 	t := r.T
+	emptyUUID := t.Chance(1, 4)
 	nTopics := 1 + t.Skewed(3)
 	src := NewScriptedSubscriber(r, "fanin-in")
 	src.MaxRedeliver = 3
@@ -344,6 +349,9 @@ func c17FanIn(r *Run) {
 		for k := 0; k < n; k++ {
 			it := c17RandomItem(t, i*10+k)
 			it.uuid = fmt.Sprintf("%s#%d.%d", it.uuid, i, k)
+			if i == 0 && k == 0 && emptyUUID {
+				it.uuid = ""
+			}
 			it.srcTopic = tp
 			items[it.uuid] = it
 			src.Script[tp] = append(src.Script[tp], ScriptMsg{UUID: it.uuid, Payload: it.payload, Metadata: it.meta})
@@ -487,6 +495,7 @@ func c17Requeuer(r *Run) {
 
 func c17FanOut(r *Run) {
 	t := r.T
+	emptyUUID := t.Chance(1, 4)
 	src := NewScriptedSubscriber(r, "fanout-in")
 	src.MaxRedeliver = 2
 	nTopics := 1 + t.Skewed(3)
@@ -499,6 +508,9 @@ func c17FanOut(r *Run) {
 		for k := 0; k < n; k++ {
 			it := c17RandomItem(t, i*10+k)
 			it.uuid = fmt.Sprintf("%s#%d.%d", it.uuid, i, k)
+			if i == 0 && k == 0 && emptyUUID {
+				it.uuid = ""
+			}
 			it.srcTopic = tp
 			items[it.uuid] = it
 			src.Script[tp] = append(src.Script[tp], ScriptMsg{UUID: it.uuid, Payload: it.payload, Metadata: it.meta})
